@@ -30,14 +30,16 @@ struct Pools {
 impl Pools {
     fn new() -> Pools {
         Pools {
-            shorts: vec!['a', 'b', 'c', 'd', 'e', 'f', 'g', 'k', 'm', 'n', 'p', 'q'],
+            shorts: vec![
+                'a', 'b', 'c', 'd', 'e', 'f', 'g', 'k', 'm', 'n', 'p', 'q', 'r', 's', 't', 'u', 'B', 'D',
+            ],
             longs: vec![
                 "alpha", "beta", "gamma", "delta", "epsilon", "zeta", "eta", "theta", "iota", "kappa",
-                "lambda", "mu",
+                "lambda", "mu", "nu", "xi", "omicron", "pi", "rho", "sigma",
             ],
             envs: vec![
                 "BPAF_V_A", "BPAF_V_B", "BPAF_V_C", "BPAF_V_D", "BPAF_V_E", "BPAF_V_F", "BPAF_V_G",
-                "BPAF_V_H",
+                "BPAF_V_H", "bpaf_v_i", "Bpaf_V_J", "bpaf_V_k2",
             ],
             cmds: vec!["cmd", "sub", "run", "go"],
         }
@@ -59,6 +61,14 @@ fn gen_named(r: &mut Rng, p: &mut Pools, env_p: usize) -> Option<Named> {
         1 => n.longs.push(Pools::take(r, &mut p.longs)?),
         _ => {
             n.shorts.push(Pools::take(r, &mut p.shorts)?);
+            n.longs.push(Pools::take(r, &mut p.longs)?);
+        }
+    }
+    // hidden aliases: further short/long names on the same item
+    if r.chance(1, 4) {
+        if r.chance(1, 2) {
+            n.shorts.push(Pools::take(r, &mut p.shorts)?);
+        } else {
             n.longs.push(Pools::take(r, &mut p.longs)?);
         }
     }
@@ -803,6 +813,7 @@ pub fn gen_case(seed: u64, run: u64, faults: bool) -> Case {
         parsers,
         env,
         ops,
+        interlude: Vec::new(),
     }
 }
 
@@ -1013,6 +1024,9 @@ pub fn run_case(case: &Case, stats: &mut Stats) -> RunReport {
                 stats.max("ticks.max_per_op", first.ticks);
                 stats.bump(&format!("outcome.{}", first.outcome.class()));
                 h.write_str(&format!("{:?}", first.outcome));
+                report
+                    .trace
+                    .push(format!("op {} run: {}", opi, describe(&first)));
                 h.write(&first.out);
                 h.write(&first.err);
                 let n_set = first.env_reads.iter().filter(|r| r.1).count() as u64;
@@ -1070,12 +1084,19 @@ pub fn run_case(case: &Case, stats: &mut Stats) -> RunReport {
                     );
                 }
                 // ---- R7: no memory - a fresh twin under the current environment agrees
-                let twin = Live {
-                    opts: l.opts.clone(),
-                    parser: exec::build_unchecked(&l.opts),
-                    ix: index(&l.opts),
+                let fresh = {
+                    let opts = l.opts.clone();
+                    let op2 = op.clone();
+                    let env = world::with(|s| s.env.clone());
+                    exec::on_fresh_thread(env, move || {
+                        let twin = Live {
+                            parser: exec::build_unchecked(&opts),
+                            ix: index(&opts),
+                            opts,
+                        };
+                        run_on(&twin, &op2)
+                    })
                 };
-                let fresh = run_on(&twin, op);
                 stats.bump("rule.R7.evaluated");
                 if !fresh.same_result(&first) {
                     violation!(
@@ -1089,7 +1110,6 @@ pub fn run_case(case: &Case, stats: &mut Stats) -> RunReport {
                         )
                     );
                 }
-                drop(twin);
                 // ---- relational rules need a line the oracle fully understands
                 let info = match scan(&l.ix, argv) {
                     Some(i) => i,
